@@ -155,6 +155,20 @@ def _configs(tier, salts):
                             cfg = cfgs.base_cfg(prob, salt, npt=3, rhobeg=0.3, rhoend=1e-3, maxfun=maxfun, memo=False, noise_amp=0.3,
                                                 objfun_has_noise=True, user_params=cfgs.user_params(3, up), tag_restart=rmode + "_autodetect")
                             out.append((cfg, {"depth": 0}))
+        # sample averaging with a user tolerance, every budget (the budget ends inside a point's samples for most of them):
+        # the small-objective test is made on the mean of the samples actually taken
+        if salt == 0 or tier == "thorough":
+            for prob in ("rosen", "nzr"):
+                for ns in ("const2", "const3", "iter%3+1"):
+                    for abs_tol in (1e-12, 1.0, 8.0):
+                        for rmode in ("none", "soft"):
+                            for maxfun in range(1, 46 if tier == "quick" else 90):
+                                up = dict(cfgs.RESTART_MODES[rmode])
+                                if abs_tol != 1e-12:
+                                    up["model.abs_tol"] = abs_tol
+                                cfg = cfgs.base_cfg(prob, salt, npt=3, rhobeg=0.3, rhoend=1e-2, maxfun=maxfun, memo=False, noise_amp=0.02,
+                                                    nsamples=ns, user_params=cfgs.user_params(3, up), tag_restart=rmode + "_avg")
+                                out.append((cfg, {"depth": 0}))
         # an objective that is non-finite at EVERY evaluation (one more way a run can end)
         if salt == 0:
             for rmode in ("none", "soft", "hard_old", "hard_new"):
